@@ -62,16 +62,16 @@ def gen(seed, n):
         if kind == "named":
             fs = fields(r.randrange(0, 9))
             defs.append(attrs + "struct %s %s" % (name, decl_named(fs)))
-            cases.append(("t%d" % i, "%s %s" % (name, build_named(fs)), len(fs)))
+            cases.append(("t%d" % i, "%s %s" % (name, build_named(fs)), len(fs), no_drop))
             model.append("derive t%d 0 0 %s" % (i, flags(fs)))
         elif kind == "tuple":
             fs = fields(r.randrange(1, 9))
             defs.append(attrs + "struct %s%s;" % (name, decl_tuple(fs)))
-            cases.append(("t%d" % i, "%s%s" % (name, build_tuple(fs)), len(fs)))
+            cases.append(("t%d" % i, "%s%s" % (name, build_tuple(fs)), len(fs), no_drop))
             model.append("derive t%d 0 0 %s" % (i, flags(fs)))
         elif kind == "unit":
             defs.append(attrs + "struct %s;" % name)
-            cases.append(("t%d" % i, name, 0))
+            cases.append(("t%d" % i, name, 0, no_drop))
             model.append("derive t%d 0 0 -" % i)
         elif kind == "generic":
             fs = fields(r.randrange(0, 5))
@@ -79,7 +79,7 @@ def gen(seed, n):
             body = "{ " + ig_attr(ig) + "g: X" + "".join(", " + ig_attr(g) + "f%d: %s" % (j, ty) for j, (g, ty, _) in enumerate(fs)) + " }"
             defs.append(attrs + "struct %s<X: Trace + 'static> %s" % (name, body))
             build = "%s::<Cc<DLeaf>> { g: mk()%s }" % (name, "".join(", f%d: %s" % (j, ctor.format(leaf="mk()")) for j, (_, _, ctor) in enumerate(fs)))
-            cases.append(("t%d" % i, build, len(fs) + 1))
+            cases.append(("t%d" % i, build, len(fs) + 1, no_drop))
             model.append("derive t%d 0 0 %s" % (i, ("1" if ig else "0") + "".join("1" if g else "0" for g, _, _ in fs)))
         else:
             nv = r.randrange(1, 5)
@@ -105,7 +105,7 @@ def gen(seed, n):
                     b = "%s::V%d%s" % (name, v, build_tuple(fs))
                 else:
                     b = "%s::V%d" % (name, v)
-                cases.append(("t%dv%d" % (i, v), b, len(fs)))
+                cases.append(("t%dv%d" % (i, v), b, len(fs), no_drop))
                 model.append("derive t%dv%d %d %d %s" % (i, v, v, 1 if vig else 0, flags(fs)))
     src = ["// GENERATED by tools/gen_derive.py (seed %d). Do not edit." % seed,
            "#![allow(dead_code, non_snake_case, unused_parens, clippy::all)]",
@@ -119,7 +119,11 @@ fn tc_of(cc: &Cc<DLeaf>) -> u16 {
     hooks::counter_apply(s.tracing_word, s.counter_word, None).tracing_counter
 }
 
-fn case<T: Trace + 'static>(id: &str, build: impl FnOnce(&mut dyn FnMut() -> Cc<DLeaf>) -> T) {
+fn case<T: Trace + 'static>(id: &str, guarded: bool, build: impl FnOnce(&mut dyn FnMut() -> Cc<DLeaf>) -> T) {
+    // without `unsafe_no_drop` the macro emits an (empty) `Drop` impl, whatever the shape of the type
+    if guarded && !std::mem::needs_drop::<T>() {
+        println!("dguard {} missing", id);
+    }
     let leaves: RefCell<Vec<Vec<Cc<DLeaf>>>> = RefCell::new(Vec::new());
     let mut mk = || {
         let l = Cc::new(DLeaf);
@@ -145,9 +149,9 @@ fn case<T: Trace + 'static>(id: &str, build: impl FnOnce(&mut dyn FnMut() -> Cc<
 }
 
 pub fn run() {""")
-    for cid, build, nf in cases:
+    for cid, build, nf, nd in cases:
         b = build.replace("mk()", "mk()")
-        src.append("    case(\"%s\", |mk| %s);" % (cid, b))
+        src.append("    case(\"%s\", %s, |mk| %s);" % (cid, "false" if nd else "true", b))
     src.append("    println!(\"derive done\");\n}")
     return "\n".join(src) + "\n", model
 
